@@ -8,7 +8,7 @@ from .setops import premise_group, constructor_group, bits_for, fnr, decode_ab, 
 from ..validate import validation_group
 BOUNDS = {
     'quick': {'alternatives_per_operand': '1..2', 'hybrid_groups': 'identifiers abstract (any length), fields major/minor/patch full u64 <= MAX_SAFE_INTEGER for operand products < 4 alternatives, < 8 for larger products', 'identifier_list_len': 1},
-    'thorough': {'alternatives_per_operand': '1..3', 'identifier_list_len': 2},
+    'thorough': {'alternatives_per_operand': '1..3 except 3x3 (rank groups); products <= 4 (hybrid groups)', 'identifier_list_len': 2},
 }
 OUTSIDE = ['ranges with more alternatives than the bound', 'identifier lists longer than the bound', 'contents of alphanumeric identifiers',
            'parser / Display (operands are arbitrary values accepted by BoundSet::new)']
@@ -20,9 +20,13 @@ def groups(tier):
     gs = []
     for ka in range(1, K + 1):
         for kb in range(1, K + 1):
+            if ka * kb >= 9:
+                continue            # 3x3: the pointwise query ran past the 30 min cap (measured); 2x3 needs ~15 min
             gs.append({'name': 'rank-%dx%d' % (ka, kb), 'fn': rank_group, 'rank_fallback': True, 'args': {'ka': ka, 'kb': kb}})
     for ka in range(1, K + 1):
         for kb in range(1, K + 1):
+            if ka * kb > 4:
+                continue
             gs.append({'name': 'sat-hybrid-%dx%d' % (ka, kb), 'fn': sat_group, 'args': {'ka': ka, 'kb': kb, 'L': 1, 'hybrid': True}})
     if tier != 'quick':
         gs.append({'name': 'sat-concrete-1x1', 'fn': sat_group, 'args': {'ka': 1, 'kb': 1, 'L': 2, 'hybrid': False}})
